@@ -47,9 +47,12 @@ where
     T: Hash + Eq + Clone + Ord + Display + Send + Sync,
     A: Clone + Send + Sync,
 {
-    let nbrs = graph.get_successors_or_neighbors(v.clone());
-    let (clustering_v, potential) = nbrs
+    // self-loops are ignored
+    let nbrs = graph
+        .get_successors_or_neighbors(v.clone())
         .into_iter()
+        .filter(|n| n.name != v);
+    let (clustering_v, potential) = nbrs
         .combinations(2)
         .map(|c| {
             get_coefficient_for_combination(v.clone(), c[0].name.clone(), c[1].name.clone(), graph)
@@ -91,8 +94,9 @@ where
     A: Clone + Send + Sync,
 {
     graph
-        .get_successors_or_neighbors(nn)
+        .get_successors_or_neighbors(nn.clone())
         .into_iter()
         .map(|n| n.name.clone())
         .collect::<HashSet<T>>()
+        .without(&nn) // self-loops are ignored
 }
